@@ -391,6 +391,11 @@ example : ∃ C', mergeApply mcS true {} mcA mcB mcB = .ok C' ∧ dataEqL true C
 def cS : Schema := { modName := "cell", nodes := [ { depth := 0, kind := .leaf, name := "f", dflts := [bs "d"] } ] }
 
 example : cS.isKind 0 .leaf = true := by decide +kernel
+example : ∃ B' R M C' A', apply cS [.term 0 {} [] (bs "x")] (diff cS true [.term 0 {} [] (bs "x")] [.term 0 {} [] (bs "y")]) = .ok B' ∧
+    reverse cS (diff cS true [.term 0 {} [] (bs "x")] [.term 0 {} [] (bs "y")]) = .ok R ∧ apply cS B' R = .ok A' ∧
+    mergeDiff {} cS (diff cS true [.term 0 {} [] (bs "x")] [.term 0 {} [] (bs "y")]) R = .ok M ∧
+    apply cS [.term 0 {} [] (bs "x")] M = .ok C' ∧ dataEqL true C' A' = true :=
+  merge_apply_reverse (keyOrder_of_stringLL (by decide +kernel)) (by decide +kernel) (by decide +kernel)
 -- x -> y -> z is one replace x -> z; x -> y -> x leaves nothing
 example : (cellEff cS {} .replace (nReplace 0 {} (bs "y") false (bs "x")) .replace (nReplace 0 {} (bs "z") false (bs "y"))
     (some (.term 0 {} [] (bs "x")))).isSome = true := by decide +kernel
